@@ -628,8 +628,10 @@ func Rebuild(t *Term, args []*Term) *Term {
 			return indexTerm(args[0], args[1])
 		}
 	case OBuiltin:
-		if t.Str == "len" && len(args) == 1 && args[0].Op == "list" {
-			return Const(constant.MakeInt64(int64(len(args[0].Args))), types.Typ[types.Int])
+		if t.Str == "len" && len(args) == 1 {
+			if n, ok := ConstLen(args[0]); ok {
+				return Const(constant.MakeInt64(n), types.Typ[types.Int])
+			}
 		}
 		if (t.Str == "math.Min" || t.Str == "math.Max") && len(args) == 2 {
 			return FMinMax(t.Str == "math.Min", args[0], args[1])
@@ -639,6 +641,26 @@ func Rebuild(t *Term, args []*Term) *Term {
 	nt.key = ""
 	nt.Args = args
 	return &nt
+}
+
+// ConstLen: the length of a slice term whose construction is spelled out on the path: an element list, nil,
+// or append(s, e1, ..., en) of such a slice.
+func ConstLen(t *Term) (int64, bool) {
+	switch {
+	case t.Op == "list":
+		return int64(len(t.Args)), true
+	case t.Op == OConst && t.C == nil && t.Typ != nil:
+		if _, ok := t.Typ.Underlying().(*types.Slice); ok {
+			return 0, true
+		}
+	case t.Op == OBuiltin && t.Str == "append" && len(t.Args) == 2 && t.Args[1].Op == "list":
+		if n, ok := ConstLen(t.Args[0]); ok {
+			return n + int64(len(t.Args[1].Args)), true
+		}
+	case t.Op == OBuiltin && t.Str == "append" && len(t.Args) == 1:
+		return ConstLen(t.Args[0])
+	}
+	return 0, false
 }
 
 // Walk visits every subterm.
